@@ -130,6 +130,7 @@ class Repo:
         try:
             for sd in subdirs:
                 self._load_tree(os.path.join(self.root, sd))
+            self.helpers_inlined = self._undo_extractions()
             for m in self.modules.values():
                 self._index_module(m)
             for c in self.classes.values():
@@ -142,6 +143,29 @@ class Repo:
             if was:
                 gc.enable()
         self._subclasses: Optional[Dict[str, Set[str]]] = None
+
+    def _undo_extractions(self) -> int:
+        """Functions the baseline tree did not have, used only through
+        plain calls in statement position in their own module, are inlined
+        back before indexing (sa/alpha.py, `extracted helpers`)."""
+        if os.environ.get('VERIF_NO_ALPHA'):
+            return 0
+        from . import alpha
+        base = alpha.baseline()
+        mods = base.get('__modules__', {})
+        funcs = base.get('__funcs__', {})
+        n = 0
+        for m in self.modules.values():
+            if getattr(m, 'shared', False):
+                continue
+            rel = m.rel()
+            if rel not in funcs or \
+                    mods.get(rel) == hashlib.sha1(m.src.encode()).hexdigest():
+                continue
+            others = [x.src for x in self.modules.values() if x is not m]
+            n += alpha.undo_extractions(m.tree, m.name, set(funcs[rel]),
+                                        others, base)
+        return n
 
     def _alpha(self) -> int:
         """Rename locals back to the names the rules were written against
@@ -164,6 +188,7 @@ class Repo:
             keys = alpha.stable_keys(fs)
             for q, f in fs.items():
                 n += alpha.canonicalise_function(keys[q], f.node)
+                alpha.register_base_tests(keys[q], f.node)
         if n:
             # derived per-tree memo tables were not built yet at this point
             pass
